@@ -1,4 +1,347 @@
-/- C06 — property theorems (under construction). -/
+/-
+  C06 — Sort, Limit, Offset and total_count describe one consistent window.
+
+  The Go code sorts with an unstable sort whose `Less` answers true on ties, so everything about
+  the order of rows is stated up to ties, on the sequence of key tuples.  Helper lemmas live in
+  `Lmd.Lemmas.Sort`.
+-/
 import Lmd.Props.C01
+import Lmd.Lemmas.Sort
+
 namespace Lmd.C06
+open Lmd.Sort
+
+/-! ## 1. one key -/
+
+/-- Comparing a sort key with itself gives "equal" (numbers, strings and custom variables). -/
+theorem cmpKeyAsc_refl (a : SortKey) : cmpKeyAsc a a = .eq := cmpKeyAsc_self a
+
+/-- Exchanging the two keys exchanges the outcome of lmd's key comparison (less ↔ greater). -/
+theorem cmpKeyAsc_swap (a b : SortKey) : cmpKeyAsc b a = (cmpKeyAsc a b).swap :=
+  Lmd.Sort.cmpKeyAsc_swap a b
+
+/-- On keys built with the same constructor, "not greater" is transitive: lmd's ascending key
+    order is a total preorder per column type. -/
+theorem cmpKeyAsc_trans (a b c : SortKey) (hab : tag a = tag b) (hbc : tag b = tag c)
+    (h₁ : cmpKeyAsc a b ≠ .gt) (h₂ : cmpKeyAsc b c ≠ .gt) : cmpKeyAsc a c ≠ .gt :=
+  cmpKeyAsc_le_trans a b c hab hbc h₁ h₂
+
+/-- The custom-variable rule: a row without the variable (value "") sorts after every row that
+    has it, in ascending order. -/
+theorem cmpKeyAsc_cv_empty_last (a : String) (ha : a ≠ "") :
+    cmpKeyAsc (.cv a) (.cv "") = .lt ∧ cmpKeyAsc (.cv "") (.cv a) = .gt := by
+  have h : ("" : String) ≠ a := fun h => ha h.symm
+  simp [cmpKeyAsc, ha, h]
+
+/-- Without `tag` agreement transitivity really fails (a number, a string, a smaller number),
+    which is why the theorems below carry the `Compatible` hypothesis. -/
+example : cmpKeyAsc (.num 1) (.str "") ≠ .gt ∧ cmpKeyAsc (.str "") (.num 0) ≠ .gt ∧
+    cmpKeyAsc (.num 1) (.num 0) = .gt := by decide
+
+example : tag (.cv "b") = tag (.cv "") ∧ cmpKeyAsc (.cv "b") (.cv "") ≠ .gt := by decide
+
+/-! ## 2. key tuples and `Hit.le` -/
+
+/-- two key tuples have the same length and the same constructor at every position; this holds for
+    all hits of one request (`collected_compatible`) -/
+def Compatible (a b : List SortKey) : Prop := a.map tag = b.map tag
+
+/-- Exchanging two key tuples exchanges the outcome of the lexicographic comparison, whatever the
+    directions: the comparison never calls both `a before b` and `b before a`. -/
+theorem cmpKeys_swap (dirs : List Bool) (a b : List SortKey) :
+    cmpKeys dirs b a = (cmpKeys dirs a b).swap := Lmd.Sort.cmpKeys_swap dirs a b
+
+/-- On compatible key tuples "not greater" is transitive for every choice of directions. -/
+theorem cmpKeys_trans (dirs : List Bool) (a b c : List SortKey)
+    (hab : Compatible a b) (hbc : Compatible b c)
+    (h₁ : cmpKeys dirs a b ≠ .gt) (h₂ : cmpKeys dirs b c ≠ .gt) : cmpKeys dirs a c ≠ .gt :=
+  cmpKeys_le_trans dirs a b c hab hbc h₁ h₂
+
+example : Compatible [.str "a", .num 2] [.str "b", .num 1] ∧
+    cmpKeys [true, false] [.str "b", .num 1] [.str "a", .num 2] ≠ .gt ∧
+    cmpKeys [true, false] [.str "a", .num 2] [.str "a", .num 2] ≠ .gt := ⟨rfl, by decide, by decide⟩
+
+/-- The row order of lmd is total: of two hits, one may always stand before the other. -/
+theorem hitLe_total (dirs : List Bool) (a b : Hit) :
+    Hit.le dirs a b = true ∨ Hit.le dirs b a = true := by
+  rw [hitLe_iff, hitLe_iff, Lmd.Sort.cmpKeys_swap dirs a.keys b.keys]
+  cases cmpKeys dirs a.keys b.keys <;> simp
+
+/-- The row order of lmd is transitive on hits with compatible key tuples. -/
+theorem hitLe_trans (dirs : List Bool) (a b c : Hit)
+    (hab : Compatible a.keys b.keys) (hbc : Compatible b.keys c.keys)
+    (h₁ : Hit.le dirs a b = true) (h₂ : Hit.le dirs b c = true) : Hit.le dirs a c = true := by
+  rw [hitLe_iff] at h₁ h₂ ⊢
+  exact cmpKeys_le_trans dirs _ _ _ hab hbc h₁ h₂
+
+/-- All hits collected for one request have compatible key tuples, because the keys are built by
+    the same `sortKeyOf` over the same sort fields. -/
+theorem collected_compatible (m : EvalMode) (s : Schema) (ds : Dataset) (t : Table) (req : Request)
+    (a b : Hit) (ha : a ∈ collected m s ds t req) (hb : b ∈ collected m s ds t req) :
+    Compatible a.keys b.keys :=
+  (hasSig_collected m s ds t req a ha).trans (hasSig_collected m s ds t req b hb).symm
+
+/-! ## 3. the sorted pool -/
+
+/-- the key tuples of two hits compare equal under the requested directions -/
+def KeyEq (dirs : List Bool) (a b : Hit) : Prop := cmpKeys dirs a.keys b.keys = .eq
+
+/-- Sorting hits that were all built from the same sort fields (same key signature `sig`) with
+    lmd's row order yields a permutation of the hits in which every earlier row may stand before
+    every later row. -/
+theorem sorted_pool (dirs : List Bool) (sig : List Nat) (hits : List Hit)
+    (hsig : ∀ h ∈ hits, HasSig sig h) :
+    (hits.mergeSort (Hit.le dirs)).Perm hits ∧
+      (hits.mergeSort (Hit.le dirs)).Pairwise (fun a b => Hit.le dirs a b = true) :=
+  ⟨List.mergeSort_perm _ _, ordered_mergeSort_on (hitLe_totalPreorderOn dirs sig) hits hsig⟩
+
+/-- three hits, two of them tied, two keys, the first descending -/
+def exHits : List Hit :=
+  [ { (default : Hit) with keys := [.str "a", .num 2] },
+    { (default : Hit) with keys := [.str "b", .num 1] },
+    { (default : Hit) with keys := [.str "a", .num 2] } ]
+
+example : ∀ h ∈ exHits, HasSig [1, 0] h := by decide
+
+example : (exHits.mergeSort (Hit.le [true, false])).map (·.keys) =
+    [[.str "b", .num 1], [.str "a", .num 2], [.str "a", .num 2]] := by
+  have h₁ : compare "a" "b" = Ordering.lt := by decide
+  have h₂ : compare "b" "a" = Ordering.gt := by decide
+  simp [exHits, List.mergeSort, List.MergeSort.Internal.splitInTwo, Hit.le, cmpKeys, cmpKeyAsc,
+    h₁, h₂]
+
+/-- For every request whose offset does not exceed the total, the pool `dataQuery` builds is the
+    collected hits sorted by the requested order: a permutation of the collected hits that is
+    pairwise ordered (also when the request has no sort fields, where every order is accepted). -/
+theorem pool_sorted (m : EvalMode) (s : Schema) (ds : Dataset) (t : Table) (req : Request)
+    (h : req.offset ≤ (dataQuery m s ds t req).total) :
+    (dataQuery m s ds t req).pool.Perm (collected m s ds t req) ∧
+      (dataQuery m s ds t req).pool.Pairwise (fun a b => Hit.le (dirsOf req) a b = true) := by
+  rw [dataQuery_total] at h
+  rw [dataQuery_pool m s ds t req h]
+  exact sorted_pool _ (sigOf req) _ (hasSig_collected m s ds t req)
+
+/-! ## 4. the sorted order is unique up to ties -/
+
+/-- Any two lists that are permutations of each other and both ordered by a comparison that is a
+    total preorder on their elements agree position by position up to ties: whatever (unstable)
+    sort is used, the sequence of equivalence classes is the same. -/
+theorem sorted_keys_unique {α : Type} {P : α → Prop} {le : α → α → Bool}
+    (hle : TotalPreorderOn P le) (l₁ l₂ : List α) (hperm : l₁.Perm l₂) (hP : ∀ a ∈ l₁, P a)
+    (h₁ : l₁.Pairwise (fun a b => le a b = true)) (h₂ : l₂.Pairwise (fun a b => le a b = true)) :
+    PosRel (Tie P le) l₁ l₂ :=
+  ordered_perm_posRel hle hperm hP h₁ h₂
+
+/-- For lmd's hits: two orderings of the same hits that both respect the requested sort order have
+    the same length and, at every position, key tuples that compare equal.  So the result of the
+    Go code's unstable sort is determined up to rows with equal keys. -/
+theorem sorted_hits_unique (dirs : List Bool) (sig : List Nat) (l₁ l₂ : List Hit)
+    (hperm : l₁.Perm l₂) (hsig : ∀ h ∈ l₁, HasSig sig h)
+    (h₁ : l₁.Pairwise (fun a b => Hit.le dirs a b = true))
+    (h₂ : l₂.Pairwise (fun a b => Hit.le dirs a b = true)) :
+    PosRel (KeyEq dirs) l₁ l₂ := by
+  have := ordered_perm_posRel (hitLe_totalPreorderOn dirs sig) hperm hsig h₁ h₂
+  exact ⟨this.1, fun i a b => ((tie_iff_cmpKeys_eq dirs sig _ _).mp (this.2 i a b)).2.2⟩
+
+example : ∃ l₁ l₂ : List Hit, l₁.Perm l₂ ∧ (∀ h ∈ l₁, HasSig [1, 0] h) ∧
+    l₁.Pairwise (fun a b => Hit.le [true, false] a b = true) ∧
+    l₂.Pairwise (fun a b => Hit.le [true, false] a b = true) ∧ l₁.length = 3 :=
+  ⟨[exHits[1], exHits[0], exHits[2]], [exHits[1], exHits[2], exHits[0]],
+    (List.Perm.swap _ _ _).cons _ |>.symm, by decide, by decide, by decide, rfl⟩
+
+/-! ## 5. the window -/
+
+/-- When the offset does not exceed the total, the returned rows are exactly the sorted pool with
+    `offset` rows dropped and then (if a limit is given) `limit` rows kept, and the pool is the
+    collected hits sorted with the requested order. -/
+theorem window_spec (m : EvalMode) (s : Schema) (ds : Dataset) (t : Table) (req : Request)
+    (h : req.offset ≤ (dataQuery m s ds t req).total) :
+    (dataQuery m s ds t req).pool = (collected m s ds t req).mergeSort (Hit.le (dirsOf req)) ∧
+    (dataQuery m s ds t req).hits =
+      match req.limit with
+      | some l => ((dataQuery m s ds t req).pool.drop req.offset).take l
+      | none => (dataQuery m s ds t req).pool.drop req.offset := by
+  rw [dataQuery_total] at h
+  exact ⟨dataQuery_pool m s ds t req h, dataQuery_hits m s ds t req h⟩
+
+example (m : EvalMode) (s : Schema) (ds : Dataset) (t : Table) :
+    ({ limit := some 2 } : Request).offset ≤ (dataQuery m s ds t { limit := some 2 }).total :=
+  Nat.zero_le _
+
+/-- The returned rows always form a sublist of the sorted pool (they keep its order and never
+    repeat a pool position). -/
+theorem window_sublist (m : EvalMode) (s : Schema) (ds : Dataset) (t : Table) (req : Request) :
+    (dataQuery m s ds t req).hits.Sublist (dataQuery m s ds t req).pool := by
+  by_cases h : req.offset ≤ totalOf m s ds t req
+  · rw [dataQuery_hits m s ds t req h, window]
+    cases req.limit with
+    | none => exact List.drop_sublist _ _
+    | some l => exact (List.take_sublist _ _).trans (List.drop_sublist _ _)
+  · rw [(dataQuery_beyond m s ds t req (Nat.lt_of_not_le h)).1]
+    exact List.nil_sublist _
+
+/-- `Limit: 0` returns no rows. -/
+theorem window_limit_zero (m : EvalMode) (s : Schema) (ds : Dataset) (t : Table) (req : Request)
+    (hl : req.limit = some 0) : (dataQuery m s ds t req).hits = [] := by
+  by_cases h : req.offset ≤ totalOf m s ds t req
+  · rw [dataQuery_hits m s ds t req h, window, hl]
+    exact List.take_zero
+  · exact (dataQuery_beyond m s ds t req (Nat.lt_of_not_le h)).1
+
+/-- An offset beyond the total returns no rows. -/
+theorem window_offset_beyond (m : EvalMode) (s : Schema) (ds : Dataset) (t : Table) (req : Request)
+    (h : req.offset > (dataQuery m s ds t req).total) : (dataQuery m s ds t req).hits = [] := by
+  rw [dataQuery_total] at h
+  exact (dataQuery_beyond m s ds t req h).1
+
+/-- Every returned row is one of the rows collected from the backends. -/
+theorem window_mem (m : EvalMode) (s : Schema) (ds : Dataset) (t : Table) (req : Request)
+    (x : Hit) (hx : x ∈ (dataQuery m s ds t req).hits) : x ∈ collected m s ds t req := by
+  by_cases h : req.offset ≤ totalOf m s ds t req
+  · have hp := (window_sublist m s ds t req).subset hx
+    rw [dataQuery_pool m s ds t req h] at hp
+    exact List.mem_mergeSort.mp hp
+  · rw [(dataQuery_beyond m s ds t req (Nat.lt_of_not_le h)).1] at hx
+    cases hx
+
+/-- No row is returned twice if no row was collected twice. -/
+theorem window_nodup (m : EvalMode) (s : Schema) (ds : Dataset) (t : Table) (req : Request)
+    (hnd : (collected m s ds t req).Nodup) : (dataQuery m s ds t req).hits.Nodup := by
+  by_cases h : req.offset ≤ totalOf m s ds t req
+  · refine List.Nodup.sublist (window_sublist m s ds t req) ?_
+    rw [dataQuery_pool m s ds t req h]
+    exact (List.mergeSort_perm _ _).nodup_iff.mpr hnd
+  · rw [(dataQuery_beyond m s ds t req (Nat.lt_of_not_le h)).1]
+    exact List.nodup_nil
+
+/-- The number of returned rows is `min limit (pool size − offset)`. -/
+theorem window_length (m : EvalMode) (s : Schema) (ds : Dataset) (t : Table) (req : Request)
+    (h : req.offset ≤ (dataQuery m s ds t req).total) :
+    (dataQuery m s ds t req).hits.length =
+      match req.limit with
+      | some l => min l ((collected m s ds t req).length - req.offset)
+      | none => (collected m s ds t req).length - req.offset := by
+  rw [dataQuery_total] at h
+  rw [dataQuery_hits m s ds t req h, dataQuery_pool m s ds t req h, window]
+  cases req.limit <;> simp
+
+/-! ## 6. total_count -/
+
+/-- When no per-backend cut is applied (the specification mode), or the output format is
+    wrapped_json, `total_count` is the number of rows that pass filter and authorisation, summed
+    over the selected available backends. -/
+theorem total_count_spec (m : EvalMode) (s : Schema) (ds : Dataset) (t : Table) (req : Request)
+    (h : m.earlyCut = false ∨ req.outFmt = .wrapped) :
+    (dataQuery m s ds t req).total =
+      ((availBackends ds t req).map fun b =>
+        (matchingRows m { schema := s, ds := ds, b := b } t req.filter req.authUser).length).sum := by
+  rw [dataQuery_total, totalOf, peerResults, ← List.sum_eq_foldl_nat, List.map_map]
+  congr 1
+  apply List.map_congr_left
+  intro b _
+  exact gatherRows_total m _ t req h
+
+/-- `total_count` does not depend on Limit, Offset, Sort (or anything but table data, filter,
+    authorised user and backend selection) under the same condition. -/
+theorem total_count_indep (m : EvalMode) (s : Schema) (ds : Dataset) (t : Table) (req req' : Request)
+    (h : m.earlyCut = false ∨ (req.outFmt = .wrapped ∧ req'.outFmt = .wrapped))
+    (hf : req'.filter = req.filter) (hu : req'.authUser = req.authUser)
+    (hb : req'.backends = req.backends) :
+    (dataQuery m s ds t req').total = (dataQuery m s ds t req).total := by
+  have e : availBackends ds t req' = availBackends ds t req := by
+    simp [availBackends, selectBackends, hb]
+  rw [total_count_spec m s ds t req (h.imp id And.left),
+    total_count_spec m s ds t req' (h.imp id And.right), e, hf, hu]
+
+example : EvalMode.spec.earlyCut = false := rfl
+
+/-! ## 7. soundness of the per-backend early cut, on plain lists -/
+
+/-- Binary top-k: the first `k` elements of the merge of two lists are already determined by the
+    first `j ≥ k` and `l ≥ k` elements of the inputs (equality of lists; holds for every
+    comparison, in particular for lmd's row order). -/
+theorem topk_merge {α : Type} (le : α → α → Bool) (xs ys : List α) (k j l : Nat)
+    (hj : k ≤ j) (hl : k ≤ l) :
+    (List.merge xs ys le).take k = (List.merge (xs.take j) (ys.take l) le).take k :=
+  take_merge_take le k xs ys j l hj hl
+
+/-- n-way top-k with equality of lists, for the n-way merge obtained by folding `List.merge`. -/
+theorem topk_mergeAll {α : Type} (le : α → α → Bool) (k : Nat) (As : List (List α)) :
+    (mergeAll le As).take k = (mergeAll le (As.map (List.take k))).take k :=
+  take_mergeAll_take le k As
+
+/-- n-way top-k as `dataQuery` computes it: if every backend's list is ordered by a total preorder,
+    the first `k` elements of the sorted concatenation agree, position by position up to ties,
+    with the first `k` elements of the sorted concatenation of the lists cut to `k` elements. -/
+theorem topk_sorted_concat {α : Type} {P : α → Prop} {le : α → α → Bool}
+    (hle : TotalPreorderOn P le) (As : List (List α)) (hP : ∀ A ∈ As, ∀ a ∈ A, P a)
+    (ho : ∀ A ∈ As, A.Pairwise (fun a b => le a b = true)) (k : Nat) :
+    PosRel (Tie P le) ((As.flatten.mergeSort le).take k)
+      (((As.map (List.take k)).flatten.mergeSort le).take k) :=
+  take_mergeSort_flatten_take hle As hP ho k
+
+/-- The same for lmd's hits: cutting every backend's (already ordered) hit list to `k` rows does
+    not change the key sequence of the first `k` rows of the sorted result. -/
+theorem topk_hits (dirs : List Bool) (sig : List Nat) (As : List (List Hit))
+    (hsig : ∀ A ∈ As, ∀ a ∈ A, HasSig sig a)
+    (ho : ∀ A ∈ As, A.Pairwise (fun a b => Hit.le dirs a b = true)) (k : Nat) :
+    PosRel (KeyEq dirs) ((As.flatten.mergeSort (Hit.le dirs)).take k)
+      (((As.map (List.take k)).flatten.mergeSort (Hit.le dirs)).take k) := by
+  have := take_mergeSort_flatten_take (hitLe_totalPreorderOn dirs sig) As hsig ho k
+  exact ⟨this.1, fun i a b => ((tie_iff_cmpKeys_eq dirs sig _ _).mp (this.2 i a b)).2.2⟩
+
+example : ∃ As : List (List Hit), As.length = 2 ∧ (∀ A ∈ As, ∀ a ∈ A, HasSig [1, 0] a) ∧
+    (∀ A ∈ As, A.Pairwise (fun a b => Hit.le [true, false] a b = true)) ∧
+    (∀ A ∈ As, A.length = 2) :=
+  ⟨[[exHits[1], exHits[0]], [exHits[1], exHits[2]]], rfl, by decide, by decide, by decide⟩
+
+/-- The ordering hypothesis is needed: a backend list that is not in the requested order loses its
+    smallest row to the cut. -/
+example : ∃ As : List (List Hit),
+    ¬ PosRel (KeyEq [false]) ((As.flatten.mergeSort (Hit.le [false])).take 1)
+      (((As.map (List.take 1)).flatten.mergeSort (Hit.le [false])).take 1) := by
+  refine ⟨[[{ (default : Hit) with keys := [.num 2] }, { (default : Hit) with keys := [.num 1] }]],
+    fun h => ?_⟩
+  have := h.2 0 (by simp) (by simp)
+  have hc : compare (2 : Int) 1 = Ordering.gt := by decide
+  simp [KeyEq, List.mergeSort, List.MergeSort.Internal.splitInTwo, Hit.le, cmpKeys, cmpKeyAsc,
+    hc] at this
+
+/-! ## 8. the early cut inside `dataQuery` -/
+
+/-- Soundness of the per-backend early cut in `dataQuery` itself: if every available backend
+    delivers its matching rows already in the requested order (the situation in which lmd applies
+    the cut: the request order is the table's default order), then the rows returned with the cut
+    and the rows returned without it have the same length and, position by position, key tuples
+    that compare equal.  This also covers requests without sort fields, `Limit: 0`, and offsets
+    beyond the (possibly smaller) total reported with the cut. -/
+theorem earlyCut_sound (m : EvalMode) (s : Schema) (ds : Dataset) (t : Table) (req : Request)
+    (hord : ∀ A ∈ backendHits m s ds t req,
+      A.Pairwise (fun a b => Hit.le (dirsOf req) a b = true)) :
+    PosRel (KeyEq (dirsOf req))
+      (dataQuery m s ds t req).hits (dataQuery (noCut m) s ds t req).hits := by
+  have := dataQuery_cut_posRel m s ds t req hord
+  exact ⟨this.1, fun i a b => ((tie_iff_cmpKeys_eq _ _ _ _).mp (this.2 i a b)).2.2⟩
+
+/-- two backends answering a one-row virtual table, cut at one row per backend -/
+example : ∃ (ds : Dataset) (t : Table) (req : Request),
+    peerCut (EvalMode.code Quirks.none) req = some 1 ∧
+    (backendHits (EvalMode.code Quirks.none) default ds t req).map List.length = [1, 1] ∧
+    ∀ A ∈ backendHits (EvalMode.code Quirks.none) default ds t req,
+      A.Pairwise (fun a b => Hit.le (dirsOf req) a b = true) :=
+  ⟨{ backends := [{ id := "a", name := "a" }, { id := "b", name := "b" }] },
+    { name := "backends", cols := [], virt := .backends }, { limit := some 1 },
+    by decide, by decide, by decide⟩
+
+/-- With the early cut the reported total never exceeds the true number of matching rows, and it
+    is exact whenever that number is at most `limit + offset`; otherwise it is still larger than
+    `limit + offset`.  (Without wrapped_json the row loop stops right after the cut is exceeded,
+    so `total_count` is only a lower bound there.) -/
+theorem total_count_cut_bounds (m : EvalMode) (s : Schema) (ds : Dataset) (t : Table)
+    (req : Request) (L : Nat) (hc : peerCut m req = some L) :
+    (dataQuery m s ds t req).total ≤ (dataQuery (noCut m) s ds t req).total ∧
+    min (dataQuery (noCut m) s ds t req).total (L + 1) ≤ (dataQuery m s ds t req).total := by
+  rw [dataQuery_total, dataQuery_total]
+  exact ⟨totalOf_le_noCut m s ds t req, totalOf_cut_ge m s ds t req L hc⟩
+
 end Lmd.C06
